@@ -1,4 +1,5 @@
-import RxnModel.Proofs.CkptInv
+import RxnModel.Proofs.CkptStep
+import RxnModel.Proofs.CkptSpec
 import RxnModel.Proofs.CkptFiles
 import RxnModel.Generated.Facts
 /-!
@@ -39,105 +40,13 @@ theorem code_shape :
     Facts.c08SaveUnderListLock = 1 ∧ Facts.c08RetainKeepsNewer = 1 := by
   decide
 
-/-- the memory/WAL invariant holds after every history -/
-theorem inv_step (s s' : State) (a : Act) (hi : Inv s) (h : step s a = some s') : Inv s' := by
-  cases a with
-  | «open» id rots =>
-    simp only [step] at h
-    split at h
-    · cases h
-    · rename_i c _
-      simp only [restore] at h
-      split at h
-      · cases h
-      · exact (replay_inv _ _ _ _ (restoreBase_inv s.files c) h).1
-  | write del k v rot =>
-    simp only [step] at h
-    split at h
-    · cases h
-    · exact (write_inv hi h).1
-  | flushBegin n =>
-    simp only [step] at h
-    split at h
-    · cases h
-    · split at h
-      · cases h
-      · rename_i db' hst
-        simp only [Option.some.injEq] at h
-        subst h
-        simp only [Lsm.step] at hst
-        split at hst
-        · cases hst
-        · split at hst
-          · simp only [Option.some.injEq] at hst
-            subst hst
-            exact ⟨hi.parts, hi.cons, hi.segs, hi.act, hi.wl, hi.tbls, hi.le, hi.rd⟩
-          · cases hst
-  | flushCommit => exact flushCommit_inv hi h
-  | compact rm lvl add => exact compact_inv hi h
-  | checkpoint id =>
-    simp only [step] at h
-    split at h
-    · cases h
-    · split at h
-      · cases h
-      · simp only [Option.some.injEq] at h
-        subst h
-        obtain ⟨ps, hm, hne, hfl⟩ := hi.parts
-        refine ⟨⟨ps, hm, hne, by rw [rotate_entries]; exact hfl⟩, by rw [rotate_entries]; exact hi.cons, ?_,
-          by simp [Wal.Writer.rotate], hi.wl, hi.tbls, hi.le, hi.rd⟩
-        intro sg hsg e he
-        simp only [Wal.Writer.rotate, List.mem_append, List.mem_singleton] at hsg
-        rcases hsg with hsg | rfl
-        · exact hi.segs sg hsg e he
-        · exact hi.act e he
-  | saveWal id =>
-    simp only [step] at h
-    split at h
-    · cases h
-    · split at h
-      · cases h
-      · simp only [Option.some.injEq] at h
-        subst h
-        exact hi.congr rfl rfl rfl
-  | saveDoc id =>
-    simp only [step] at h
-    split at h
-    · cases h
-    · split at h
-      · cases h
-      · simp only [Option.some.injEq] at h
-        subst h
-        exact hi.congr rfl rfl rfl
-  | retain ids =>
-    simp only [step] at h
-    split at h
-    · cases h
-    · split at h
-      · cases h
-      · simp only [Option.some.injEq] at h
-        subst h
-        exact hi.congr rfl rfl rfl
-  | crash =>
-    simp only [step] at h
-    split at h
-    · cases h
-    · simp only [Option.some.injEq] at h
-      subst h
-      exact hi.congr rfl rfl rfl
+/-- the memory/WAL invariant `Inv` (see `Proofs/CkptInv.lean`) is preserved by every action, `open` included -/
+theorem inv_step (s s' : State) (a : Act) (hi : Inv s) (h : step s a = some s') : Inv s' := Ckpt.inv_step s s' a hi h
 
-theorem init_inv : Inv ({} : State) :=
-  ⟨⟨[[]], rfl, by simp, rfl⟩, ⟨1, trivial, Nat.le_refl _, rfl⟩, by simp [Wal.Writer.new],
-    by simp [Wal.Writer.new], Nat.le_refl _, by simp, Nat.le_refl _, rfl⟩
+theorem init_inv : Inv ({} : State) := Ckpt.init_inv
 
-theorem inv_run (as : List Act) (s s' : State) (hi : Inv s) (h : run s as = some s') : Inv s' := by
-  induction as generalizing s with
-  | nil => simp only [run, Option.some.injEq] at h; subst h; exact hi
-  | cons a as ih =>
-    simp only [run] at h
-    split at h
-    · rename_i s1 h1; exact ih s1 (inv_step s s1 a hi h1) h
-    · cases h
+theorem inv_run (as : List Act) (s s' : State) (hi : Inv s) (h : run s as = some s') : Inv s' :=
+  Ckpt.inv_run as s s' hi h
 
 /-- **WAL covers everything unflushed.** After every history: every sequence number above `LatestSeqNum` (what the
 level list is known to hold) that has been handed out is in the WAL (what a `Save` would write), the log has no
@@ -284,6 +193,92 @@ theorem restore_accepts_writes (as : List Act) (s : State) (h : run {} as = some
     cases del <;> simp
   · simp only [hk, if_false]
 
+/-! ## the same at the level of the specification map (composition with C07)
+
+`runSpec` runs a history together with the map a user expects (`SpecSt.m`): every write is applied to it, a
+`Checkpoint(id)` call records it for `id`, and `open id` resets it to the map recorded for `id` — "the contents at the
+instant `Checkpoint` was called". Instances are only opened from completed handles of retained checkpoints
+(`guardOk`). The C07 refinement invariant (`Lsm.Inv`, with the compaction soundness proof of C18) is carried through
+every action and re-established for a restored instance. -/
+
+/-- **Every point read follows the specification along every history, restores and chains of restores included**:
+right after `open id` the database contains exactly the writes made before the `Checkpoint(id)` call (none missing,
+no later one visible), afterwards those plus the writes of the restored instance, whatever flushes, compactions,
+checkpoints, retention updates and crashes happen in between. -/
+theorem restore_is_spec (as : List Act) (s : State) (sp : SpecSt) (h : runSpec {} {} as = some (s, sp)) (k : Bytes) :
+    answer (Lsm.get s.db k) = answer (Lsm.Spec.get sp.m k) := by
+  obtain ⟨mL, hL, _, hA⟩ := (sinv_run as {} s {} sp sinv_init h).lsm
+  rw [get_eq_spec hL k]; exact hA k
+
+/-- **Every prefix scan follows the specification** in the same sense: ascending keys, each live key of the expected
+map with the prefix exactly once with its expected value, nothing else. -/
+theorem restore_scan_is_spec (as : List Act) (s : State) (sp : SpecSt) (h : runSpec {} {} as = some (s, sp))
+    (p : Bytes) :
+    ((Lsm.scan s.db p).map (fun e => (e.key, e.val))).Pairwise (fun a b => Bytes.lt a.1 b.1 = true) ∧
+    ∀ k v, (k, v) ∈ (Lsm.scan s.db p).map (fun e => (e.key, e.val)) ↔
+      (answer (Lsm.Spec.get sp.m k) = some v ∧ Bytes.hasPrefix k p = true) := by
+  obtain ⟨mL, hL, _, hA⟩ := (sinv_run as {} s {} sp sinv_init h).lsm
+  obtain ⟨hsorted, hmem⟩ := Lsm.scan_spec hL p
+  refine ⟨List.pairwise_map.mpr hsorted, ?_⟩
+  intro k v
+  simp only [List.mem_map, Prod.mk.injEq]
+  constructor
+  · rintro ⟨e, he, rfl, rfl⟩
+    obtain ⟨h1, h2, h3⟩ := (hmem e).mp he
+    refine ⟨?_, h3⟩
+    rw [← hA e.key, h1]
+    simp [answer, h2]
+  · rintro ⟨h1, h2⟩
+    rw [← hA k] at h1
+    cases hg : Lsm.Spec.get mL k with
+    | none => rw [hg] at h1; simp [answer] at h1
+    | some e =>
+      rw [hg] at h1
+      have hk : e.key = k := (Lsm.Run.lookup_some_mem hg).2
+      have hd : e.del = false := by
+        cases hd : e.del
+        · rfl
+        · simp [answer, hd] at h1
+      have hv : e.val = v := by simpa [answer, hd] using h1
+      exact ⟨e, (hmem e).mpr ⟨by rw [hk]; exact hg, hd, by rw [hk]; exact h2⟩, hk, hv⟩
+
+/-- The statement of the property in one line: history `as₁`, `Checkpoint(id)`, anything afterwards (`as₂`, without
+reusing the id), restore from `id`: the expected map of the restored instance is the expected map at the call. -/
+theorem checkpoint_restore_spec (as₁ as₂ : List Act) (id : Nat) (rots : List Nat) (s₁ r : State) (sp₁ spr : SpecSt)
+    (h1 : runSpec {} {} as₁ = some (s₁, sp₁))
+    (h : runSpec {} {} (as₁ ++ (.checkpoint id :: as₂ ++ [.open id rots])) = some (r, spr))
+    (hno : ∀ a ∈ as₂, a = Act.checkpoint id → False) :
+    spr.m = sp₁.m ∧ ∀ k, answer (Lsm.get r.db k) = answer (Lsm.Spec.get sp₁.m k) := by
+  have hm : spr.m = sp₁.m := by
+    rw [runSpec_append, h1] at h
+    simp only [List.cons_append, runSpec] at h
+    split at h
+    · cases hst : step s₁ (.checkpoint id) with
+      | none => rw [hst] at h; cases h
+      | some s₂ =>
+        rw [hst] at h
+        simp only [] at h
+        rw [runSpec_append] at h
+        cases h2 : runSpec s₂ (stepSpec s₁ sp₁ (.checkpoint id)) as₂ with
+        | none => rw [h2] at h; cases h
+        | some p =>
+          obtain ⟨s₃, sp₃⟩ := p
+          rw [h2] at h
+          simp only [runSpec] at h
+          split at h
+          · cases hst3 : step s₃ (.open id rots) with
+            | none => rw [hst3] at h; cases h
+            | some r' =>
+              rw [hst3] at h
+              simp only [Option.some.injEq, Prod.mk.injEq] at h
+              rw [← h.2]
+              simp only [stepSpec]
+              rw [saved_keep id as₂ s₂ s₃ _ sp₃ hno h2]
+              exact specAt_cons_eq _ _ _
+          · cases h
+    · cases h
+  exact ⟨hm, fun k => by rw [← hm]; exact restore_is_spec _ r spr h k⟩
+
 /-! ## regression witness of D28 and non-vacuity -/
 
 /-- put k=1 (memtable rotates), flush, checkpoint 1 completed -/
@@ -319,6 +314,17 @@ example :
         pure (s.done, s.ckpts.map (·.id), answer (Lsm.get r.db [107]), answer (Lsm.get r.db [108]),
               answer (Lsm.get s.db [107]), answer (Lsm.get s.db [108])))
       = some ([1], [1], some [1], some [2], some [9], none) := by
+  rfl
+
+/-- non-vacuity of the specification-level theorems: the same history through `runSpec`, restored instance and
+expected map agree on the state of the `Checkpoint` call -/
+example :
+    (do let (s, sp) ← runSpec {} {} [.write false [107] [1] true, .flushBegin 1, .write false [108] [2] false,
+          .checkpoint 1, .write false [107] [9] false, .flushCommit, .saveWal 1, .write true [108] [] false,
+          .saveDoc 1, .crash, .open 1 []]
+        pure (answer (Lsm.get s.db [107]), answer (Lsm.Spec.get sp.m [107]), answer (Lsm.get s.db [108]),
+              answer (Lsm.Spec.get sp.m [108])))
+      = some (some [1], some [1], some [2], some [2]) := by
   rfl
 
 end Rxn.C08
